@@ -422,7 +422,7 @@ def classify_type(s, n):
     return "simple"
 
 
-COMPANION_SUFFIXES = ["_var", "_agg", "_ptr", "_ptr_c", "_var_agg", "_agg_ptr", "_agg_ptr_c", "_var_ptr", "_var_ptr_c",
+COMPANION_SUFFIXES = ["_var", "_agg", "_agg_var", "_ptr", "_ptr_c", "_var_agg", "_agg_ptr", "_agg_ptr_c", "_var_ptr", "_var_ptr_c",
                       "_var_agg_ptr", "_var_agg_ptr_c", "__set", "__set_var"]
 
 
@@ -438,6 +438,8 @@ def oracle_raw(R):
     s = R.schema
     if R.status == "gen-fail" and re.search(r"characters long; \S*exp2cxx supports at most \d+", R.detail):
         return []      # exp2cxx's documented identifier-length limit, refused with a diagnostic: outside its supported subset
+    if R.status == "gen-fail" and re.search(r"get the same C\+\+ class and file name \(Sdai<\w+>\w+ is generated for", R.detail):
+        return []      # refused with a diagnostic (fix C02-13): a declaration named like a companion class of another one
     if R.status == "gen-fail" and re.search(r"schema name \S+ is a C\+\+ keyword; \S*exp2cxx uses the schema name as a namespace name", R.detail):
         return []      # refused with a diagnostic (fix C02-12): a schema named like a C++ keyword cannot become a namespace
     if R.status == "gen-fail":
